@@ -43,6 +43,21 @@ CHECKS = {
         "Not judged: integers outside the range of the bound property type, non-finite doubles, legacy octal.",
         "DESIGN.md §4 C03",
     ),
+    "C04": (
+        RM + "generated documents and single planted faulty bindings through the real library; each source binding located in the "
+        "emitted .ui and the emitted header (place-count monitor), diagnostic byte ranges compared with the binding's bytes; the real "
+        "CLI on multi-source invocations with stale outputs (exit status, inode/mtime/sha256 snapshots)",
+        "exploration",
+        "Every binding of every accepted document (constant, dynamic, grouped with and without dynamic members, attached, pseudo, "
+        "signal handlers; thousands per run) must be found in exactly one place: as a value on its object's element in the .ui or as "
+        "the update function writing that property through that object / the setup function connecting that signal. One faulty "
+        "binding of 18 kinds is planted anywhere: an error diagnostic must lie inside the binding's bytes. A sample goes through the "
+        "CLI as Broken.qml among fine sources in every position, with stale outputs present or absent: non-zero exit, nothing created "
+        "or modified for the broken source.",
+        "Constant members of a group with a dynamic member may be in either or both outputs (as the property allows). For duplicate "
+        "bindings the diagnostic may lie in either twin.",
+        "DESIGN.md §4 C04",
+    ),
     "C05": (
         RM + "catalogue of single type-breaking edits and generated programs with AST-level single-edit mutants through the real "
         "library; acceptance oracle + independent IR typing monitor via the hook",
@@ -180,6 +195,19 @@ CHECKS = {
         "JSON description; every query must finish within a CPU budget.",
         "Termination is restated as bounded progress (10 s CPU per job; observed maximum well below 1 ms per query).",
         "DESIGN.md §4 C17",
+    ),
+    "C18": (
+        RM + "generated multi-directory projects run through the real CLI in several source-argument orders, each source alone, "
+        "and from a sub directory; <customwidgets> oracle from the project model; byte comparison across invocations; CPU watchdog",
+        "exploration",
+        "Projects of 1-5 directories (nested, spaced names) with 2-12 components rooted in Qt classes or in other components, string "
+        "imports in six spellings (./, trailing /, dir/../dir detours, ../ climbs), mutually importing directories, mutually and self "
+        "inheriting components; documents instantiate components interleaved (X, Y, X), nested and as root, with base-class properties. "
+        "Judged: every instantiated type listed exactly once with class / extends (= root type of its file) / header per file-name rule, "
+        "base-class property values on the instances, identical bytes for a source across all invocations, exit 0/1 within a CPU budget.",
+        "The CLI stops at the first failing source; outputs a failing invocation did not reach are not counted as order dependence. "
+        "Bases of instantiated components may be listed too.",
+        "DESIGN.md §4 C18",
     ),
     "C19": (
         RM + "reference-model oracle over exhaustive short-hex / keyword spaces and sampled strings, in-process through the real "
